@@ -56,8 +56,10 @@ ListViol(e) ==
   ELSE LET have == Elems(e.v)
            apps == {w \in DOMAIN writes : writes[w].op = "App" /\ writes[w].ret # 0}
            rems == {w \in DOMAIN writes : writes[w].op = "Rem" /\ writes[w].ret # 0}
+           anyRem == \E w \in DOMAIN writes : writes[w].op = "Rem"     \* returned or not (a failed Remove may have applied)
        IN (IF apps \subseteq have THEN {} ELSE {V("LostAppend", cat)})
           \cup (IF rems # {} /\ 0 \in have THEN {V("LostRemove", cat)} ELSE {})
+          \cup (IF ~anyRem /\ 0 \notin have THEN {V("LostMember", cat)} ELSE {})   \* the pre-existing member vanished though nobody removed it
 
 TrRet == /\ Is("Ret")
          /\ IF IsWriteOp(Ev.op)
